@@ -18,9 +18,10 @@ CLAIMS = {
          "their dumps are compared.", "section 6 C01", ""),
  "C02": ("Coq theorem over all chains and all sequences of events of the sync loop (failed attempts rolled back, SIGKILL before COMMIT returns or right after, restarts, "
          "API requests): the committed database is always the uninterrupted replay of a prefix of the chain and the rest is still to be applied; each block records its "
-         "height exactly once; table obligations from the source: every write of a block goes through its sql.Tx, reads that bypass it are the reviewed ones. Tie: the real "
-         "daemon is killed at statement granularity (every distinct call site, before/after COMMIT), re-opened by a fresh process, compared with the reference state of "
-         "the recorded height, resumed and compared again.", "section 6 C02",
+         "height exactly once; table obligations from the source: every write of a block goes through its sql.Tx, reads that bypass it are the reviewed ones, the journal is on disk with synchronous writes, the height mark is a plain "
+         "INSERT under PRIMARY KEY(height). Tie: the real daemon is killed at statement granularity (every distinct call site, before/after COMMIT), re-opened by a fresh "
+         "process, compared with the reference state of the recorded height, resumed and compared again; and every block is failed once (at its last statement, inside its "
+         "transaction entries, inside its grading rows) and applied again by the same process, the ledger compared with the fault-free run.", "section 6 C02",
          "SQLite's atomic commit / journal and the filesystem are trusted (partial: no executable model can exhibit torn writes). "),
  "C03": ("Coq theorems over all chains (induction over the block list, unbounded Z with the code's uint64/int64 checks): no reachable balance is negative (proved from the "
          "code's own checks, not from the CHECK constraint), a batch is applied completely or leaves every balance untouched, every debit is covered at the moment it is "
@@ -56,7 +57,7 @@ CLAIMS = {
          "the averages a block uses are a function of the committed database alone. Tie: chain correspondence on chains with unrated blocks inside the averaging window, "
          "the real daemon restarted at every height of such a chain vs one continuous run, and a daemon serving API requests (some aborted by the client, blocks arriving one at a time) vs one serving none.", "section 6 C09", ""),
  "C10": ("Coq theorem over all chains and all fault sequences whose error propagates: the database reached is the fault-free replay; table obligation from the source: the "
-         "sites where an error is discarded, only logged or replaced are exactly the reviewed ones. Tie: every distinct SQL call site and factomd request of a chain fails "
+         "sites where an error is discarded, only logged or replaced are exactly the reviewed ones. Tie: every operation of the one-time adjustment blocks and of blocks pricing held conversions with the averages fails once; every distinct SQL call site and factomd request of a chain fails "
          "once on the real daemon, which must then reach the fault-free ledger.", "section 6 C10",
          "Known finding (recorded): errors in and around NullifyBurnAddress are dropped (Refuted/C10.v). A failed COMMIT ends the process (log.Fatal): treated as crash + restart. "),
  "C11": ("Coq theorems for every verdict and every factoid block: the reward step credits each winner's Payout() in PEG at its payout address and changes no other cell; each "
